@@ -19,9 +19,11 @@ from .c10 import limit_parts
 
 PROP = "C11"
 THEOREMS = ["C11_tree", "C11_again", "C11_single_leaf", "C11_fragment_inhabited", "C11_tree_with_escaped_mappings", "C11_fragment_included",
-            "C11_roundtrip_with_paths", "C11_with_paths_is_what_the_api_builds", "C11_with_paths_includes_literals"]
+            "C11_roundtrip_with_paths", "C11_with_paths_is_what_the_api_builds", "C11_with_paths_includes_literals",
+            "C11_nested_leaf_roundtrip", "C11_nested_list_roundtrip", "C11_nested_mapping_roundtrip", "C11_nested_path_key_refused",
+            "C11_nested_tree_roundtrip_partial"]
 FACT_LEMMAS = ["C11Proof / C09Proof table facts (closed computations on the generated tables)", "Tie.tie_build"]
-DEPENDS = ['Py.v', 'Lang.v', 'Defs.v', 'Cond.v', 'Dsl.v', 'Check.v', 'DocSem.v', 'Inst.v', 'Gen/TablesGen.v', 'Gen/CallablesGen.v', 'Gen/SpecGen.v', 'Path.v', 'Cast.v', 'Str.v', 'SpecDefs.v', 'RuleDefs.v', 'Rule.v', 'Spec.v', 'SpecIO.v', 'Eq.v', 'RunSpec.v', 'SpecSpell.v', 'RuleTerms.v', 'Proofs/Tie.v', 'Proofs/PyFacts.v', 'Proofs/C01Proof.v', 'Proofs/C02Proof.v', 'Proofs/RuleProof.v', 'Proofs/C09Proof.v', 'Proofs/C11Proof.v', 'Proofs/C11EscProof.v', 'PathSpec.v', 'Proofs/C03Proof.v', 'Proofs/C04Proof.v', 'Proofs/C10Proof.v', 'Proofs/C14Proof.v', 'Proofs/C12Proof.v', 'Proofs/C11PathProof.v', 'Properties/C11.v']
+DEPENDS = ['Py.v', 'Lang.v', 'Defs.v', 'Cond.v', 'Dsl.v', 'Check.v', 'DocSem.v', 'Inst.v', 'Gen/TablesGen.v', 'Gen/CallablesGen.v', 'Gen/SpecGen.v', 'Path.v', 'Cast.v', 'Str.v', 'SpecDefs.v', 'RuleDefs.v', 'Rule.v', 'Spec.v', 'SpecIO.v', 'Eq.v', 'RunSpec.v', 'SpecSpell.v', 'RuleTerms.v', 'Proofs/Tie.v', 'Proofs/PyFacts.v', 'Proofs/C01Proof.v', 'Proofs/C02Proof.v', 'Proofs/RuleProof.v', 'Proofs/C09Proof.v', 'Proofs/C11Proof.v', 'Proofs/C11EscProof.v', 'PathSpec.v', 'Proofs/C03Proof.v', 'Proofs/C04Proof.v', 'Proofs/C10Proof.v', 'Proofs/C14Proof.v', 'Proofs/C12Proof.v', 'Proofs/C11PathProof.v', 'NestedArgs.v', 'NestedIO.v', 'Proofs/C11NestedProof.v', 'Properties/C11.v']
 ASSUMPTIONS = ["Layer P models CPython's operators (pysem)", "json.dumps / json.loads text is outside the model (real JSON text is used by the harness)"]
 
 PATHY = [{"path": 1}, {"path": ["a"]}, {"path.first": ["a", 0]}, {"xpath": True}, {"a": {"path": [1]}}, [{"path": ["a"]}, 2],
@@ -134,6 +136,67 @@ def impl_roundtrip(t, probes, used=False):
     return js, (js2 == js and json.dumps(js2) == txt, bool(c2 == c), js3 == js, same_behaviour)
 
 
+NESTED_IMPORTS = "Py Lang Defs Cond Dsl Check DocSem PathSpec Path Cast RuleDefs RuleSpec Rule Inst Run RunRule RuleTerms NestedArgs SpecDefs Spec SpecIO Eq NestedIO"
+
+
+def nested_cases(g, pg, n):
+    """Correspondence for the nested fragment (NestedIO.v): a ONE-parameter callable whose argument is a list / tuple with data paths
+    among its items, or a mapping with data paths among its values; to_json_like, purity of the JSON, from_spec(json) == original."""
+    from .c17 import enc_narg
+    v = valida()
+    out = []
+    lits = [1, "s", None, 2.5, True, {"path": 1}, {"a": [1]}, [1, "x"], {"path": ["a"], "b": 2}, {"\\path": 3}, [], {}]
+    for _ in range(n):
+        doc = g.document(3, 4)
+
+        def item():
+            if g.r.random() < 0.45:
+                return normalise_path(limit_parts(pg.path(doc, max_len=2, mods_p=0.4)))
+            return copy.deepcopy(g.r.choice(lits))
+
+        def leaf():
+            k = g.r.random()
+            if k < 0.6:
+                arg = [item() for _ in range(g.r.randint(1, 4))]
+                if g.r.random() < 0.12:
+                    arg = tuple(arg)            # written as a list: comes back unequal
+            else:
+                keys = g.r.sample(["k", "j", "a", "n", "mypath", 1], g.r.randint(1, 3))
+                arg = {kk: item() for kk in keys}
+            m = g.r.choice(["in_", "not_in", "equal_to", "not_equal_to"]) if not isinstance(arg, dict) else g.r.choice(["equal_to", "not_equal_to", "in_"])
+            return Leaf(g.r.choice(["Value", "Value", "Key", "Index"]) if m in ("in_", "not_in", "equal_to", "not_equal_to") else "Value", m, [arg])
+        t = leaf()
+        if g.r.random() < 0.3:
+            t = Bin(g.r.choice(["and", "or", "xor"]), t, leaf())
+            if t.a.cls != t.b.cls and {t.a.cls, t.b.cls} == {"Key", "Index"}:
+                t.b.cls = t.a.cls
+
+        def impl():
+            c = t.build()
+            j = c.to_json_like()
+            pure = json.loads(json.dumps(j)) == j and all_str_keys(j)
+            c2 = v.conditions.ConditionLike.from_spec(copy.deepcopy(j))
+            return (copy.deepcopy(j), pure, bool(c2 == c))
+        o = E.run_outcome(impl)
+        try:
+            model = f"(run_nested_roundtrip {t.coq(enc_narg(Tags()))})"
+            if len(model) > 8000:
+                continue
+            out.append(Case({"kind": "nested", "term": t.descr()[:400], "impl": o[0] + ":" + repr(o[1])[:300], "coq": model[:8000]},
+                            model, None, E.enc_res(o), o, o[0] == "ok" and o[1][2], key=("nested", t.descr()[:300])))
+        except (E.Unencodable, Exception):
+            continue
+    return out
+
+
+def all_str_keys(j):
+    if isinstance(j, dict):
+        return all(isinstance(k, str) for k in j) and all(all_str_keys(x) for x in j.values())
+    if isinstance(j, list):
+        return all(all_str_keys(x) for x in j)
+    return not isinstance(j, tuple)
+
+
 def run(tier, seed, model_ok, spec_ok, replay=None):
     g = Gen(seed)
     cg = CondGen(g)
@@ -228,7 +291,16 @@ def run(tier, seed, model_ok, spec_ok, replay=None):
             direct.append({"kind": "direct", "flags": flags, "what": "round trip fails: " + ", ".join(bad), "term": t.descr()[:400],
                            "json": repr(full[1][0])[:300]})
     k_bad, o_bad, nk, no, err = run_passes("c11", IMPORTS, cases, model_ok, spec_ok)
-    res = {"evaluations": len(cases), "k_cases": nk, "o_cases": len(cases) // 2,
+    ncases = nested_cases(g, pg, 200 if tier == "quick" else 5000)
+    nk_bad, _, nnk, _, nerr = run_passes("c11n", NESTED_IMPORTS, ncases, model_ok, False)
+    for c in ncases:
+        dist["nested:" + (("equal" if c.outcome[1][2] else "not-equal") if c.outcome[0] == "ok" else c.outcome[1])] += 1
+    cases_all = cases
+    cases = cases + ncases
+    k_bad = k_bad + [len(cases_all) + i for i in nk_bad]
+    nk += nnk
+    err = err or nerr
+    res = {"evaluations": len(cases), "k_cases": nk, "o_cases": len(cases_all) // 2,
            "nontrivial": len({c.key for c in cases if c.nontrivial}),
            "rule": "leaves of the meaningful DSL (all callables on value / key / index; length with numeric comparisons; type with "
                    "equality and membership) with JSON-like, type or data-path arguments (22% literal mappings / lists whose keys "
